@@ -505,6 +505,13 @@ fn gen_doc(rng: &mut Rng, ext: &str) -> (DocD, bool) {
     d.layers[0].cells.push(CellD { x: w - 1, y: h - 1, ch: 0x58, fg: 7, bg: 0, attr: 0, fp: fp0 });
     let sauce = matches!(ext, "bin" | "tnd") || (ext == "idf" && w != 80) || rng.chance(1, 4);
     if sauce {
+        // a retouched copy of a stock font keeps its name: the SAUCE record then names a font the loader knows, while the file
+        // embeds other glyphs - the embedded ones are the picture's
+        for f in d.fonts.iter_mut().filter(|f| f.builtin.is_none() && f.height == 16 && f.name == "custom") {
+            if rng.chance(1, 2) {
+                f.name = rng.pick(&["IBM VGA", "IBM VGA50", "Amiga Topaz 2"]).to_string();
+            }
+        }
         d.sauce = Some(doc::random_sauce(rng));
     }
     (d, sauce)
